@@ -159,6 +159,10 @@ fn main() {
         }
     }
 
+    if let Some(b) = budget {
+        // (a case that is under way may use up to half the budget again before its inner loops give up)
+        util::set_deadline_s(b * 1.5);
+    }
     let mut ctx = Ctx {
         prop: prop.clone(),
         tier,
